@@ -169,7 +169,28 @@ def explore_lines(prop, cfg, tier, seed, work, result, T):
                                              stall=STALL[tier])
             if err:
                 raise RuntimeError(err)
+            confirmed = []
             for h in hangs:
+                # Was it the case, or the machine? The case is run again on its own, twice, with a longer limit:
+                # only a case that fails to return every time is reported (a worker starved of CPU by other
+                # work on the machine must not become a finding).
+                again = 0
+                for attempt in range(2):
+                    ob = os.path.join(work, 'confirm-%s-%d-%d' % (prof, h['index'], attempt))
+                    e2, h2, _ = T['run_watched']([T['harness_bin'](prof), 'gen-run', '--property', prop, '--tier', tier, '--seed', str(seed), '--out', ob,
+                                                   '--only', str(h['index']), '--case-limit', str(CASE_LIMIT[tier] * 4)], stall=STALL[tier] * 2, max_hangs=1)
+                    if e2 or h2:
+                        again += 1
+                    for ext in ('.cases', '.meta'):
+                        if os.path.exists(ob + ext):
+                            os.remove(ob + ext)
+                if again == 2:
+                    confirmed.append(h)
+                else:
+                    # it returns when run on its own: recorded as a note, and its observation is missing from this
+                    # run (the evidence says so)
+                    result['extra'].setdefault('cases_slow_once_but_returning', []).append({'index': h['index'], 'class': h['class'], 'how': h['how'], 'profile': prof})
+            for h in confirmed:
                 # the implementation did not return (or took the process down) on this generated case
                 rec = {'id': '%s-hang-%d' % (prof[0], h['index']),
                        'line': 'hang %s %s %d %s %d %s' % (prop, tier, seed, prof, h['index'], h['class']),
